@@ -22,14 +22,14 @@ func init() {
 		ID: "C02",
 		Meta: func(tier string) fw.Meta {
 			return fw.Meta{
-				Flavours: []string{"plain", "cover"},
+				Flavours: []string{"plain", "race", "cover"},
 				Blocks:   32,
 				Procs:    16,
 				Rule: "case = (beta < 1000, insertion pattern, history). Patterns: ascending, descending, outward and inward zig-zag, insert-next-to-last-key (bisection), bit-reversal, random; long monotone runs at loose balance factors (beta 900..999) sized 30% beyond the point where a never-rebalanced chain would cross the bound (up to 30000 keys); histories continue on Clones of the tree; each followed or interleaved with removals (random, half drain, drain to empty, then regrow) and Clear. " +
 					"After EVERY operation: depth of the deepest node (full traversal through Root/Left/Right for trees <= 300 keys; for larger trees the depth of the key just inserted, via Cursor(k)+Up, plus a full traversal every 64 steps and at the end) against the real-valued bound with P tracked by the monitor; comparator calls made by Get for present and absent keys against floor(bound)+1. " +
 					"Bulk New with n distinct (and duplicated) keys: height == floor(log2 n) for every beta including 1000. beta: quick {0,1,2,50,100,250,300,500,700,750,900,999} + a rotating extra; thorough sweeps all 0..999. " +
 					"distinct = hash(beta, pattern, ops); non-trivial = at some step the deepest key was within one level of log_b(P) (depth >= bound-2; on the unchanged tree the code keeps depth <= log_b(P), one level inside the stated bound)",
-				Required:     []string{"near_limit_steps", "histories_inserting_through_replace", "long_monotone_runs", "clones", "steps", "get_comparison_checks", "new_height_checks", "after_remove_checks", "regrow_after_empty"},
+				Required:     []string{"near_limit_steps", "histories_inserting_through_replace", "long_monotone_runs", "clones", "clone_worker_rounds", "steps", "get_comparison_checks", "new_height_checks", "after_remove_checks", "regrow_after_empty"},
 				Assumptions:  []string{"depth is read through stree.Cursor (Root/Left/Right/Up), which C03 checks separately", "the bound is evaluated in float64 with an epsilon of 1e-9 in the code's favour"},
 				CoverPkgs:    []string{"github.com/creachadair/mds/stree"},
 				CoverAnchors: []string{"stree/stree.go:limitFunc", "stree/stree.go:toFraction", "stree/stree.go:insert", "stree/stree.go:Add", "stree/stree.go:Replace", "stree/stree.go:Remove", "stree/stree.go:incSize", "stree/node.go:rewrite", "stree/node.go:vineToTree", "stree/node.go:treeToVine", "stree/node.go:rotateLeft", "stree/node.go:extract", "stree/stree.go:New"},
@@ -319,6 +319,21 @@ func (h *c02hist) insertPattern(p, n, base int) {
 }
 
 func runC02(c *fw.Ctx) {
+	// trees cloned from one prototype, each used by its own goroutine only
+	for k := 0; k < c.Pick(2, 12); k++ {
+		if !c.Begin(1<<22 + k) {
+			continue
+		}
+		r := c.Rng()
+		beta := []int{0, 100, 250, 500, 900}[r.IntN(5)]
+		if msg := cloneWorkers(beta, r.Uint64(), []int{0, 0, 5, 40}[r.IntN(4)], true, c.Step); msg != "" {
+			c.Fail(map[string]any{"phase": "8 goroutines, each working on its own Clone of one prototype tree", "beta": beta}, "%s", msg)
+		}
+		c.Add("clone_worker_rounds", 1)
+	}
+	if c.Flavour == "race" {
+		return
+	}
 	quickBetas := []int{0, 1, 2, 50, 100, 250, 300, 500, 700, 750, 900, 999}
 	ncases := c.Pick(48, 260)
 	for i := 0; i < ncases; i++ {
